@@ -52,6 +52,7 @@ type Contract struct {
 	Views     []string
 	Ghosts    []GhostRes // ghost results: named values of locals at return, existentially quantified for callers
 	BindEnsures map[int]bool // callback contracts: indices of Ensures that are also obligations of a method bound to the slot
+	Reads     []string // reads frame: the only locations (field paths rooted at parameters) the function may read
 	BindAssume []Clause  // callback contracts: extra hypotheses under which a bound method is checked to meet the postconditions
 	used      bool
 }
@@ -246,7 +247,7 @@ func mkClause(text, loc string) (Clause, error) {
 
 var clauseKw = map[string]bool{"props": true, "requires": true, "ensures": true, "modifies": true, "pure": true, "loop": true, "decreases": true,
 	"names": true, "assumed": true, "trusted": true, "noinline": true, "entry": true, "func": true, "dep": true, "spec": true, "lemma": true,
-	"ghost": true, "uses": true, "bindassume": true, "bindensures": true, "streamalias": true, "interface": true, "purepkg": true, "panics": true, "view": true, "pool": true}
+	"ghost": true, "uses": true, "bindassume": true, "bindensures": true, "reads": true, "streamalias": true, "interface": true, "purepkg": true, "panics": true, "view": true, "pool": true}
 
 // parseContractLines parses logical contract lines. pkgRel is the package the file belongs to ("" for spec files).
 func (w *World) parseContractLines(lines []string, locs []string, pkgRel string, assumed bool) error {
@@ -452,6 +453,12 @@ func (w *World) parseContractLines(lines []string, locs []string, pkgRel string,
 					cur.Ensures = append(cur.Ensures, cl)
 				} else {
 					cur.Ensures = append(cur.Ensures, cl)
+				}
+			case "reads":
+				for _, m := range splitTop(rest, ',') {
+					if m = strings.TrimSpace(m); m != "" {
+						cur.Reads = append(cur.Reads, m)
+					}
 				}
 			case "modifies":
 				cur.HasMod = true
